@@ -119,13 +119,16 @@ End Rewrite.
      fx_denylist  C14_io_denylist_sql_text_functions   denylist + query / json_execute_serialized_sql ...; the denylist and the
                                                        string-in-table-position check also run on the comment-safe normalisation
      fx_noraw     C14_no_raw_text_fast_paths           the request text itself is never executed
-     fx_bsq       C14_reject_backslash_before_quote    a backslash before a quote in a literal is refused *)
-Record fixset := { fx_with : bool; fx_dedup : bool; fx_scanner : bool; fx_denylist : bool; fx_noraw : bool; fx_bsq : bool }.
+     fx_bsq       C14_reject_backslash_before_quote    a backslash before a quote in a literal is refused
+     fx_single    C16_single_table_fast_path_keywords  the single-table fast path needs exactly one FROM keyword and no JOIN keyword *)
+Record fixset := { fx_with : bool; fx_dedup : bool; fx_scanner : bool; fx_denylist : bool; fx_noraw : bool; fx_bsq : bool;
+                   fx_single : bool }.
 Definition fx_none : fixset :=
-  {| fx_with := false; fx_dedup := false; fx_scanner := false; fx_denylist := false; fx_noraw := false; fx_bsq := false |}.
+  {| fx_with := false; fx_dedup := false; fx_scanner := false; fx_denylist := false; fx_noraw := false; fx_bsq := false;
+     fx_single := false |}.
 Definition fx_of_bits (n : N) : fixset :=
   {| fx_with := N.testbit n 0; fx_dedup := N.testbit n 1; fx_scanner := N.testbit n 2; fx_denylist := N.testbit n 3;
-     fx_noraw := N.testbit n 4; fx_bsq := N.testbit n 5 |}.
+     fx_noraw := N.testbit n 4; fx_bsq := N.testbit n 5; fx_single := N.testbit n 6 |}.
 
 (* ------------------------------------------------------------------------------------ *)
 (* 2. the four table patterns and the CTE pattern                                         *)
@@ -504,8 +507,21 @@ Definition k_from_sp : bytes := Eval vm_compute in s2b "from ".
 Definition k_sp_join_sp : bytes := Eval vm_compute in s2b " join ".
 Fixpoint trim_left_set (p : N -> bool) (l : bytes) : bytes :=
   match l with c :: r => if p c then trim_left_set p r else l | [] => [] end.
-Definition is_single_table (lo : bytes) : bool :=
+(* byte offsets of the word tokens equal to [w] *)
+Fixpoint word_offsets (w : bytes) (off : nat) (ts : list tok) : list nat :=
+  match ts with
+  | [] => []
+  | t :: r => (match t with TW x => if bytes_eqb x w then [off] else [] | _ => [] end)
+              ++ word_offsets w (off + length (tok_render t))%nat r
+  end.
+Definition option_nat_eqb (a : option nat) (b : nat) : bool := match a with Some x => Nat.eqb x b | None => false end.
+(* [kwd] = fx_single: exactly one FROM keyword, the one that "from " finds, and no JOIN keyword *)
+Definition is_single_table (kwd : bool) (lo : bytes) : bool :=
   (count_sub k_from_sp lo O =? 1)%nat
+  && (negb kwd || (match word_offsets k_from O (tokenize lo) with
+                   | [p] => option_nat_eqb (find_sub k_from_sp lo) p
+                   | _ => false end
+                   && match word_offsets k_join O (tokenize lo) with [] => true | _ => false end))
   && negb (has_sub k_sp_join_sp lo)
   && match find_sub k_from_sp lo with
      | Some i => match trim_left_set (fun c => (c =? 32) || (c =? 9) || (c =? 10)) (skipn (i + 5) lo) with
@@ -530,12 +546,12 @@ Definition convert_single (s : bytes) (db : bytes) : bytes :=
              else firstn idx s ++ read_parquet_expr k_FROM db name ++ skipn (length name) rest
       end
   end.
-Definition fast_single_ok (word : bool) (s : bytes) : bool :=
+Definition fast_single_ok (kwd word : bool) (s : bytes) : bool :=
   let f := scan_features s in
-  is_single_table (lower s) && negb (with_test word (lower s)) && negb (contains_from_func s)
+  is_single_table kwd (lower s) && negb (with_test word (lower s)) && negb (contains_from_func s)
   && negb (f_quotes f) && negb (f_dash f) && negb (f_block f).
-Definition convert_hdr (word : bool) (s hdr : bytes) : bytes :=
-  if fast_single_ok word s then convert_single s hdr
+Definition convert_hdr (kwd word : bool) (s hdr : bytes) : bytes :=
+  if fast_single_ok kwd word s then convert_single s hdr
   else let n := norm_p s in
        unmask (unmask_from (untok (passes_hdr word (names_of (n_masks n)) hdr (n_toks n))) (n_fmasks n)) (n_masks n).
 
@@ -549,7 +565,7 @@ Definition route_of (noraw : bool) (s : bytes) : route :=
   else Transformed.
 Definition executed_text (fx : fixset) (s hdr : bytes) : bytes :=
   match route_of (fx_noraw fx) s with
-  | Transformed => match hdr with [] => convert_nohdr s | _ => convert_hdr (fx_with fx) s hdr end
+  | Transformed => match hdr with [] => convert_nohdr s | _ => convert_hdr (fx_single fx) (fx_with fx) s hdr end
   | _ => s
   end.
 
@@ -1161,7 +1177,7 @@ Definition case_header_ctes_ok (c : gate_case) : bool :=
   | _ => fx_with (case_fx c) || has_sub k_with_sp (lower (untok ts)) || match cte_names ts with [] => true | _ => false end
   end.
 Definition case_slow_path (c : gate_case) : bool :=
-  match g_hdr c with [] => true | _ => negb (fast_single_ok (fx_with (case_fx c)) (g_sql c)) end.
+  match g_hdr c with [] => true | _ => negb (fast_single_ok (fx_single (case_fx c)) (fx_with (case_fx c)) (g_sql c)) end.
 (* the oracle of C14 on the IMPLEMENTATION's observation: every measurement that DuckDB opened
    ([reads], measured by the harness) was permission-checked *)
 Definition reads_checked_exact (checked reads : list ref) : bool := forallb (covers_exact checked) reads.
